@@ -76,44 +76,60 @@ theorem cont_line (M : Nat) (s rest k : Bytes) (st : ClientState) (hs : NoLF s) 
   unfold clientLine
   simp [hc, decodeValue_escSeg]
 
+theorem cont_lines_aux (M : Nat) (rest k : Bytes) : ∀ (n : Nat) (v : Bytes) (st : ClientState), v.length ≤ n →
+    st.cont = some k → (∀ l ∈ splitBy 10 (9 :: encodeValue v) [], l.length ≤ M) →
+    lineLoop M clientLine (9 :: encodeValue v ++ 10 :: rest) [] 0 st =
+      lineLoop M clientLine rest [] 0 { st with fields := appendToField st.fields k (10 :: v) } := by
+  intro n
+  induction n with
+  | zero =>
+    intro v st hn hc hlen
+    have hv : v = [] := List.eq_nil_of_length_eq_zero (by omega)
+    subst hv
+    have := cont_line M [] rest k st (by intro c h; simp at h) hc (by simpa [escSeg, encodeValue, splitBy] using hlen)
+    simpa [escSeg, encodeValue] using this
+  | succ n ih =>
+    intro v st hn hc hlen
+    rcases seg_decomp v with hv | ⟨s, v', hv, hs⟩
+    · rw [encodeValue_noLF hv] at hlen ⊢
+      have hclean : ∀ c ∈ (9 :: escSeg v), c ≠ 10 := by
+        intro c hc'
+        rcases List.mem_cons.mp hc' with rfl | h
+        · decide
+        · exact (escSeg_clean hv c h).1
+      rw [splitBy_noSep 10 _ [] hclean] at hlen
+      have := cont_line M v rest k st hv hc (hlen _ (by simp))
+      simpa using this
+    · subst hv
+      rw [encodeValue_append_lf s v' hs] at hlen ⊢
+      have hclean : ∀ c ∈ (9 :: escSeg s), c ≠ 10 := by
+        intro c hc'
+        rcases List.mem_cons.mp hc' with rfl | h
+        · decide
+        · exact (escSeg_clean hs c h).1
+      have hsplit : splitBy 10 (9 :: (escSeg s ++ 10 :: 9 :: encodeValue v')) [] =
+          (9 :: escSeg s) :: splitBy 10 (9 :: encodeValue v') [] := by
+        have := splitBy_append 10 (9 :: escSeg s) (9 :: encodeValue v') [] hclean
+        simpa using this
+      rw [hsplit] at hlen
+      have h1 := cont_line M s (9 :: encodeValue v' ++ 10 :: rest) k st hs hc (hlen _ (by simp))
+      have hshape : 9 :: (escSeg s ++ 10 :: 9 :: encodeValue v') ++ 10 :: rest =
+          (9 :: escSeg s) ++ 10 :: (9 :: encodeValue v' ++ 10 :: rest) := by simp
+      rw [hshape, h1]
+      have hlen' : v'.length ≤ n := by
+        simp only [List.length_append, List.length_cons] at hn; omega
+      have h2 := ih v' { st with fields := appendToField st.fields k (10 :: s) } hlen' hc
+        (fun l hl => hlen l (by simp [hl]))
+      rw [h2]
+      simp only [appendToField_twice]
+      rfl
+
 /-- all continuation lines of a value -/
 theorem cont_lines (M : Nat) (v rest k : Bytes) (st : ClientState) (hc : st.cont = some k)
     (hlen : ∀ l ∈ splitBy 10 (9 :: encodeValue v) [], l.length ≤ M) :
     lineLoop M clientLine (9 :: encodeValue v ++ 10 :: rest) [] 0 st =
-      lineLoop M clientLine rest [] 0 { st with fields := appendToField st.fields k (10 :: v) } := by
-  rcases seg_decomp v with hv | ⟨s, v', hv, hs⟩
-  · rw [encodeValue_noLF hv] at hlen ⊢
-    have hclean : ∀ c ∈ (9 :: escSeg v), c ≠ 10 := by
-      intro c hc'
-      rcases List.mem_cons.mp hc' with rfl | h
-      · decide
-      · exact (escSeg_clean hv c h).1
-    rw [splitBy_noSep 10 _ [] hclean] at hlen
-    have := cont_line M v rest k st hv hc (hlen _ (by simp))
-    simpa using this
-  · subst hv
-    rw [encodeValue_append_lf s v' hs] at hlen ⊢
-    have hclean : ∀ c ∈ (9 :: escSeg s), c ≠ 10 := by
-      intro c hc'
-      rcases List.mem_cons.mp hc' with rfl | h
-      · decide
-      · exact (escSeg_clean hs c h).1
-    have hsplit : splitBy 10 (9 :: (escSeg s ++ 10 :: 9 :: encodeValue v')) [] =
-        (9 :: escSeg s) :: splitBy 10 (9 :: encodeValue v') [] := by
-      have := splitBy_append 10 (9 :: escSeg s) (9 :: encodeValue v') [] hclean
-      simpa using this
-    rw [hsplit] at hlen
-    have h1 := cont_line M s (9 :: encodeValue v' ++ 10 :: rest) k st hs hc (hlen _ (by simp))
-    have hshape : 9 :: (escSeg s ++ 10 :: 9 :: encodeValue v') ++ 10 :: rest =
-        (9 :: escSeg s) ++ 10 :: (9 :: encodeValue v' ++ 10 :: rest) := by simp
-    rw [hshape, h1]
-    have h2 := cont_lines M v' rest k { st with fields := appendToField st.fields k (10 :: s) } hc
-      (fun l hl => hlen l (by simp [hl]))
-    rw [h2]
-    simp only [appendToField_twice]
-    rfl
-termination_by v.length
-decreasing_by trace_state; omega
+      lineLoop M clientLine rest [] 0 { st with fields := appendToField st.fields k (10 :: v) } :=
+  cont_lines_aux M rest k v.length v st (Nat.le_refl _) hc hlen
 
 /-- what `clientLine` does with the first line `key:escaped piece` of a field -/
 theorem clientLine_first (k s : Bytes) (st : ClientState) (hk : KeyOk k) :
